@@ -7,12 +7,17 @@ MODULES = ["TinsModel.Props.C06"]
 AUDIT = "Audit/C06.lean"
 LEVEL = "proof"
 MANIFEST = dict(
-    text="Lean 4 theorems over a code-shaped executable model of DataTracker::process_payload (uint32 wrap explicit), "
-         "tied to the code by differential correspondence on random/exhaustive arrival histories under ASan/UBSan and by "
-         "a spec oracle (the Lean spec itself, executable) evaluated on the implementation's own output.",
-    note="Trusted: Lean kernel + standard axioms; hand-written model tied by correspondence (harness/c06_tracker.cpp); "
-         "std::map successor modelled order-theoretically; generator coverage bounds what the tie sees.",
-    technique="Lean 4 proof (invariant/refinement over arrival histories) + model/impl correspondence",
+    text="Lean 4 theorems over code-shaped executable models of DataTracker::process_payload/advance_sequence, "
+         "Flow::process_packet and the legacy TCPStream::generic_process (uint32 wrap explicit): refinement of a "
+         "set-of-arrived-positions spec for all streams, all ISNs (wrap-around included) and all arrival histories, via "
+         "an abstract tracker over absolute positions and a simulation under the key map a -> (isn+a) mod 2^32. "
+         "Tied to the code by differential correspondence on random/exhaustive arrival histories under ASan/UBSan "
+         "(DataTracker directly, Flow and TCPStreamFollower with real IP/TCP/RawPDU packets) and by a spec oracle "
+         "(the Lean spec itself, executable) evaluated on the implementation's own output.",
+    note="Trusted: Lean kernel + standard axioms; hand-written models tied by correspondence (harness/c06_*.cpp); "
+         "std::map successor modelled order-theoretically; generator coverage bounds what the tie sees; long chunks "
+         "and the delivered payload are compared through length + FNV-1a 64.",
+    technique="Lean 4 proof (invariant + simulation/refinement over arrival histories) + model/impl correspondence",
     design="DESIGN.md §6 C06")
 
 BOUNDARY_ISNS = [0, 1, 2**31 - 1, 2**31, 2**32 - 1] + [2**32 - k for k in range(2, 26)]
@@ -59,86 +64,214 @@ def gen_case(rng, max_len, max_segs):
     return ops
 
 
-def exhaustive_cases(limit):
-    """all arrival orders of the pieces of every composition of a short stream, at boundary ISNs"""
+def exhaustive_cases(limit, L=6, maxsegs=4, isns=(0, 2**31 - 3, 2**32 - 3, 2**32 - 6), recut=False):
+    """all arrival orders of the pieces of every composition of a short stream plus one extra segment (a duplicate
+    of the first piece and, with `recut`, a retransmission with different boundaries that straddles the pieces),
+    at boundary ISNs (the stream crosses 2^31 resp. 2^32)"""
     import itertools
     out = []
-    s = bytes(range(1, 7))
-    for isn in [0, 2**31 - 3, 2**32 - 3, 2**32 - 6]:
-        for cutmask in range(2 ** 5):
-            cuts = [0] + [i + 1 for i in range(5) if cutmask >> i & 1] + [6]
+    s = bytes(range(1, L + 1))
+    for isn in isns:
+        for cutmask in range(2 ** (L - 1)):
+            cuts = [0] + [i + 1 for i in range(L - 1) if cutmask >> i & 1] + [L]
             segs = [(a, b - a) for a, b in zip(cuts, cuts[1:])]
-            if len(segs) > 4:
+            if len(segs) > maxsegs:
                 continue
-            for perm in itertools.permutations(segs + [segs[0]]):
-                out.append([f"init {isn} {hexs(s)}"] + [f"seg {(isn + a) % 2**32} {hexs(s[a:a+l])} @{a}" for a, l in perm])
-                if len(out) >= limit:
-                    return out
+            extras = [segs[0]] + ([(1, L - 2)] if recut and L > 3 else [])
+            for extra in extras:
+                for perm in itertools.permutations(segs + [extra]):
+                    out.append([f"init {isn} {hexs(s)}"] + [f"seg {(isn + a) % 2**32} {hexs(s[a:a+l])} @{a}" for a, l in perm])
+                    if len(out) >= limit:
+                        return out
+    return out
+
+
+def dup_case(rng):
+    """directed: in-order delivery with immediate exact retransmissions, retransmissions that end exactly at the
+    delivery point, and empty segments at / around the delivery point"""
+    L = rng.randint(1, 24)
+    s = bytes(rng.randrange(256) for _ in range(L))
+    isn = rng.choice(BOUNDARY_ISNS) if rng.random() < 0.7 else rng.randrange(2**32)
+    ops = [f"init {isn} {hexs(s)}"]
+    k = 0
+    while k < L:
+        n = rng.randint(1, L - k)
+        segs = [(k, n)]
+        k += n
+        for _ in range(rng.randint(0, 2)):
+            style = rng.random()
+            if style < 0.4:
+                segs.append(segs[0])                               # exact retransmission
+            elif style < 0.7:
+                a = rng.randint(-3, k); segs.append((a, k - a))    # ends exactly at the delivery point
+            elif style < 0.85:
+                segs.append((k + rng.randint(-1, 1), 0))           # empty segment at / next to the delivery point
+            else:
+                a = rng.randint(0, k); segs.append((a, rng.randint(0, k - a)))   # entirely old
+        for a, ln in segs:
+            if a > L:
+                continue
+            ln = min(ln, L - a)
+            data = bytes(rng.randrange(256) for _ in range(max(0, min(-a, ln)))) + s[max(a, 0):max(a + ln, 0)]
+            ops.append(f"seg {(isn + a) % 2**32} {hexs(data)} @{a}")
+    return ops
+
+
+def to_flow(rng, case):
+    """the same case through Flow::process_packet with real IP/TCP/RawPDU packets"""
+    out = []
+    for op in case:
+        w = op.split(" ")
+        if w[0] == "init":
+            out.append("f" + op)
+        elif w[0] == "seg":
+            out.append(("fsegp " if rng.random() < 0.3 else "fseg ") + " ".join(w[1:]))
+            if rng.random() < 0.05:
+                out.append(f"fbare {w[1]}")
+        elif w[0] == "adv":
+            out.append("f" + op)
+    if rng.random() < 0.03:
+        out.insert(rng.randint(1, len(out)), "fignore")
+    return out
+
+
+def to_legacy(rng, case):
+    """the same case through TCPStreamFollower (client direction carries the stream; server direction is noise)"""
+    out = []
+    sisn = rng.choice(BOUNDARY_ISNS)
+    spos = 0
+    for op in case:
+        w = op.split(" ")
+        if w[0] == "init":
+            out.append(f"linit {w[1]} {sisn} {w[2]}")
+        elif w[0] == "seg":
+            out.append(("lsegp c " if rng.random() < 0.3 else "lseg c ") + " ".join(w[1:]))
+            r = rng.random()
+            if r < 0.08:
+                n = rng.randint(0, 4)
+                out.append(f"lseg s {(sisn + spos + rng.choice([0, 0, 0, 2, -1])) % 2**32} {hexs(bytes(rng.randrange(256) for _ in range(n)))}")
+                spos += n if out[-1].split(' ')[2] == str((sisn + spos) % 2**32) else 0
+            elif r < 0.12:
+                out.append(f"lbare c {w[1]}")
+        # advance_sequence has no counterpart in the legacy follower: the case ends there
+        elif w[0] == "adv":
+            break
     return out
 
 
 def classify(op, impl):
     w = op.split(" ")
-    if w[0] != "seg":
+    if w[0] not in ("seg", "fseg", "fsegp", "lseg", "lsegp"):
         return w[0]
-    tag = "seg"
+    tag = w[0]
     if impl.startswith("r=1"):
         tag += ":delivered"
-    elif "buf=" in impl and not impl.endswith("buf="):
+    elif ("buf=" in impl and not impl.endswith("buf=")) or (" c=" in impl and not impl.split(" c=")[1].split(" ")[0].endswith("/")):
         tag += ":buffered"
     else:
         tag += ":ignored-or-empty"
+    if " ooo=1" in impl:
+        tag += ":ooo"
     if w[-1].startswith("@-"):
         tag += ":stale-start"
     return tag
 
 
 def sig_of(kind, detail, case):
-    return {"kind": kind, "clause": detail.split(" ")[1] if kind == "spec" else ""}
+    fam = {"i": "tracker", "f": "flow", "l": "legacy"}.get(case[0][:1], "?") if case else "?"
+    return {"kind": kind, "family": fam, "clause": detail.split(" ")[1] if kind == "spec" else ""}
+
+
+HARNESSES = [("c06_tracker", (), ("init",), lambda rng, c: c),
+             ("c06_flow", (), ("finit",), to_flow),
+             ("c06_legacy", ("-fno-access-control",), ("linit",), to_legacy)]
+
+
+def build_all():
+    exes = {}
+    for name, extra, _, _ in HARNESSES:
+        exe, err = core.build_harness(name, extra=extra)
+        if exe is None:
+            return None, f"{name}: {err}"
+        exes[name] = exe
+    return exes, None
 
 
 def run(chk):
     problems = chk.prove(MODULES, AUDIT, want_leanchecker=(chk.tier == "thorough"))
-    exe, err = core.build_harness("c06_tracker")
-    if exe is None:
+    exes, err = build_all()
+    if exes is None:
         chk.violation("implementation does not build: " + err[-1500:], ["build-error"], nofail=True)
         return
     rng = random.Random(chk.seed)
-    ncases = 1500 if chk.tier == "quick" else 40000
-    ops = []
-    for c in exhaustive_cases(400 if chk.tier == "quick" else 10**6):
-        ops += c
+    ncases = 6000 if chk.tier == "quick" else 40000
+    if chk.tier == "quick":
+        cases = list(exhaustive_cases(400))
+    else:
+        cases = list(exhaustive_cases(10**6)) + \
+            list(exhaustive_cases(10**6, L=7, maxsegs=5, isns=(1, 2**31 - 1, 2**32 - 1, 2**32 - 4), recut=True))
     for i in range(ncases):
         big = (i % 50 == 0)
-        ops += gen_case(rng, 4096 if big else 48, 40 if big else 9)
-    stats = corr.correspond(chk, AREA, exe, ops, case_start=("init",), classify=classify, sig_of=sig_of)
+        cases.append(gen_case(rng, 4096 if big else 48, 40 if big else 9))
+        if i % 3 == 0:
+            cases.append(dup_case(rng))
+    stats = __import__("collections").Counter()
+    for name, _, start, conv in HARNESSES:
+        # the tracker sees every case; Flow and the legacy follower (real packets, slower) every second one
+        step = 1 if name == "c06_tracker" else 2
+        ops = []
+        for c in cases[::step]:
+            ops += conv(rng, c)
+        stats += corr.correspond(chk, AREA, exes[name], ops, case_start=start, classify=classify, sig_of=sig_of)
     if chk.tier == "thorough":
-        for c in range(4):
-            ops = []
-            for i in range(40):
-                ops += gen_case(rng, 65535, 400)
-            stats += corr.correspond(chk, AREA, exe, ops, case_start=("init",), classify=classify, sig_of=sig_of)
+        # streams up to 64 KiB with up to 400 segments (the oracle slices the stream per buffered chunk per
+        # operation, so these are few: about 30 s of oracle time for each stream above 32 KiB)
+        for c in range(3):
+            big = [gen_case(rng, 65535, 400) for _ in range(12)]
+            for name, _, start, conv in HARNESSES:
+                ops = []
+                for cs in (big if name == "c06_tracker" else big[:4]):
+                    ops += conv(rng, cs)
+                stats += corr.correspond(chk, AREA, exes[name], ops, case_start=start, classify=classify, sig_of=sig_of)
     for p in problems:
         # a theorem no longer checks: the run above was the search for a concrete failing input
         found = stats.get("spec", 0) + stats.get("fault", 0)
         if not found:
             chk.violation("proof obligation no longer checks: " + p[:1500], ["theorem-or-audit-failure", p[:4000]], nofail=True)
     chk.cov["rule"] = ("cases = (stream, ISN, arrival history of segments cut from the stream incl. stale, duplicate, "
-                       "overlapping, empty); distinct_nontrivial counts distinct (operation, implementation result) pairs")
+                       "overlapping, empty, exact retransmissions); each case runs on DataTracker directly, through "
+                       "Flow::process_packet and through TCPStreamFollower with real IP/TCP/RawPDU packets; "
+                       "distinct_nontrivial counts distinct (operation, implementation result) pairs")
     chk.assumptions += [
         "std::map iterator successor is modelled order-theoretically (least greater key, else least key)",
         "payload equality with s.take k is compared through length + FNV-1a 64 in the run-time oracle",
         "segments with |payload| >= 2^31 (vector::erase past the end, UB) are outside the property's hypothesis",
+        "theorem hypothesis: every segment starts less than 2^31 before the current delivery point (RFC 1982 leaves "
+        "the distance 2^31 undefined; `half_window_needed` shows the bound is sharp) and ends inside the stream",
+        "byte counter compared exactly for streams <= 64 KiB (tracker_refines_spec) and modulo 2^32 for streams "
+        "< 2^31 (tracker_refines_spec_wide): the counter is a uint32_t",
     ]
-    chk.trusted += ["correspondence harness harness/c06_tracker.cpp + generators in checks/C06.py",
+    chk.trusted += ["correspondence harnesses harness/c06_tracker.cpp, c06_flow.cpp, c06_legacy.cpp (the last built "
+                    "with -fno-access-control to print private per-direction state) + generators in checks/C06.py",
                     "g++ 12 / ASan+UBSan build of /repo's working tree"]
+    chk.extra["modelled_not_proved"] = ["TCPStreamFollower session table / handshake (driven, not modelled beyond "
+                                        "the two per-direction streams)", "Flow::update_state, AckTracker (C19)"]
     corr.finalize_cov(chk)
 
 
+def harness_for(ops):
+    first = next((l for l in ops if l.strip()), "init")
+    for name, extra, start, _ in HARNESSES:
+        if first.split(" ", 1)[0] in start:
+            return name, extra, start
+    return HARNESSES[0][:3]
+
+
 def replay(path):
-    exe, err = core.build_harness("c06_tracker")
     ops = [l.rstrip("\n") for l in open(path) if not l.startswith("#") and l.strip()]
-    impl, mod, spec, faults = corr.evaluate(AREA, exe, ops, ("init",))
+    name, extra, start = harness_for(ops)
+    exe, err = core.build_harness(name, extra=extra)
+    impl, mod, spec, faults = corr.evaluate(AREA, exe, ops, start)
     bad = corr.first_problem(ops, impl, mod, spec)
     for o, a, b, c in zip(ops, impl, mod, spec):
         print(o[:200]); print("  impl :", a[:300]); print("  model:", b[:300]); print("  spec :", c)
